@@ -12,7 +12,7 @@ import sim_net as SN
 from par import pmap
 
 PROP = "C06"
-PROPERTY_FILES = ["Properties/C06.v", "Properties/C06live.v"]
+PROPERTY_FILES = ["Properties/C06.v", "Properties/C06live.v", "Properties/C06lists.v"]
 META = dict(
     level_text="Theorems (Coq, closed under the global context). Small-step model of one instance (outgoing thread cut at "
                "every access to state another thread writes; enqueues and incoming RESET/address handling interleaved "
